@@ -36,6 +36,10 @@ class Prop(common.PropertyCheck):
                    'bins': rng.choice(['count', 'edges', 'mixed', 'sample_linear', 'sample_log', 'sample_logicle', 'count2']),
                    'f': rng.choice(['0', '1', 'k/n', 'rand', 'rand', 'default']),
                    'sigma': rng.choice(['scalar', 'scalar', 'pair', 'small', 'pair_wide']), 'nan': rng.random() < 0.3, 'seed': rng.randrange(1 << 30)}
+        # single-precision events lying on (the single-precision neighbours of) decimal bin edges
+        for i in range(self.budget(12, 120)):
+            yield {'k': 'gate', 'n': [60, 600, 200][i % 3], 'data': 'f32grid', 'cont': 'array', 'bins': 'dec_edges', 'f': ['1', 'rand', 'k/n', 'default'][i % 4],
+                   'sigma': ['small', 'scalar'][i % 2], 'nan': False, 'seed': rng.randrange(1 << 30)}
         for what in ('f<0', 'f>1', 'f<0 tiny', 'f>1 tiny', 'f<0 all outside', 'one_channel', 'three_channels', 'three_channels_two_distinct', 'four_channels_two_distinct', 'one_event'):
             yield {'k': 'bad', 'what': what}
 
@@ -92,6 +96,11 @@ class Prop(common.PropertyCheck):
             xy[r.choice(n, size=k, replace=False), r.randint(0, 2)] = np.nan
             xy[r.randint(0, n), :] = np.nan
             data = xy
+        if kind == 'f32grid':
+            g = (r.randint(0, 21, size=(n, 2)) * 0.1).astype(np.float32)
+            data = g
+            xy = g.astype(np.float64)
+            bins = [np.linspace(0, 2, 21), np.linspace(0, 2, 11)]
         scale = {'sample_linear': 'linear', 'sample_log': 'log', 'sample_logicle': 'logicle'}.get(bins_kind, 'logicle')
         fk = case['f']
         if fk == '0':
